@@ -8,7 +8,10 @@ RULE = ('the crash enumeration of C05 restricted to operations with their defaul
         'platform that defines it); after the kill at boundary k the POWER-LOSS IMAGE is built: directory tree and packs.idx* as left '
         'by the kill, every regular file under loose/ packs/ sandbox/ duplicates/ replaced by its content at its last fsync (template '
         'content if pre-existing and never synced, empty if created and never synced); the image is read raw and through a fresh '
-        'Container. Distinct = (variant, boundary index); non-trivial = variants with >= 2 boundaries.')
+        'Container. Second monitor: an offline checker over the real syscall log (strace -y on an uninstrumented '
+        'run) of every variant: R1 rename(sandbox->loose) only of a file with no write since its last fsync; R2 no WAL commit frame (parsed '
+        'from the pwrite64 payload) while a pack file has unsynced bytes; R3 no unlink of a loose object / pack while pack bytes await a commit. '
+        'Distinct = (variant, boundary index); non-trivial = variants with >= 2 boundaries.')
 ASSUMPTIONS = ['fault model of the property: directory operations and committed SQLite transactions survive; file data survives only up to the last fsync of that inode',
                'SQLite WAL commits are trusted durable', 'boundaries are Python-level calls']
 TECHNIQUE = 'runtime fault injection: kill at every interposed I/O boundary + adversarial power-loss image from fsync-time snapshots + raw/fresh-handle oracle'
@@ -17,11 +20,14 @@ LEVEL_NOTE = 'trusted: the interposition layer sees every sync call (os.fsync/os
 
 def run(ctx):
     for c in ('kills', 'control-runs', 'oracle-evaluations', 'image:from-last-fsync', 'image:files-changed-by-power-loss',
-              'image:never-synced', 'boundary:fsync', 'boundary:sql:commit'):
+              'image:never-synced', 'boundary:fsync', 'boundary:sql:commit', 'ordering-traces-checked', 'order:wal-commit-frames',
+              'order:publishing-renames', 'order:loose-unlinks', 'order:pack-unlinks'):
         ctx.require(c)
     ctx.exhaustive = True
     res = ctx.map(crashchecks.run_crash_variant, crashchecks.variant_cases(ctx, PROPERTY, 'powerloss', default_fsync_only=True))
     ctx.extra['boundaries_per_variant'] = {r['extra']['name']: r['extra']['n'] for r in res if r.get('extra')}
+    # second, independent monitor: offline ordering checker over the REAL syscall log of an uninstrumented run (strace)
+    ctx.map(crashchecks.run_sys_variant, crashchecks.sys_cases(ctx, PROPERTY, 'sysorder', default_fsync_only=True))
     ctx.extra['exhaustive_scope'] = 'every Python-level boundary of each listed variant/pre-state pair (not exhaustive over variants or contents)'
 
 
